@@ -412,8 +412,9 @@ func (s *Speller) node(n Node, nextWS bool) {
 		s.B.WriteString("{#" + n.S + "#}")
 	case *NVerbatim:
 		s.open("{%", true)
-		s.tok("verbatim")
+		s.atok("verbatim", "tag:verbatim", "")
 		s.close("%}", true)
+		s.anchor("verbatim-body", "")
 		s.B.WriteString(n.S)
 		s.endTag("endverbatim")
 	case *NIf:
@@ -692,7 +693,7 @@ func (s *Speller) Expr(e Expr) {
 			}
 			switch k := e.Keys[i].(type) {
 			case *EName:
-				s.tok(k.Name)
+				s.atok(k.Name, "name", k.Name)
 			default:
 				s.Expr(k)
 			}
